@@ -81,6 +81,7 @@ def create_drawdowns(returns):
     # and set up the High Water Mark
     idx = returns.index
     hwm = np.zeros(len(idx))
+    hwm[0] = returns.iloc[0]
 
     # Create the high water mark
     for t in range(1, len(idx)):
